@@ -127,10 +127,16 @@ func (r *Reflog) Show() {
 			referenceString = color.BlueString("HEAD -> ") + fmt.Sprintf("%s, ", record.Head) + referenceString
 		}
 
+		// a record without a commit (e.g. the first half of a branch rename) is shown with the zero id
+		hashString := strings.Repeat("0", 40)
+		if record.Hash != nil {
+			hashString = record.Hash.String()
+		}
+
 		if referenceString == "" {
-			fmt.Printf("%s HEAD@{%d}: %s: %s\n", color.YellowString(record.Hash.String()[:7]), i, record.recType, record.message)
+			fmt.Printf("%s HEAD@{%d}: %s: %s\n", color.YellowString(hashString[:7]), i, record.recType, record.message)
 		} else {
-			fmt.Printf("%s (%s) HEAD@{%d}: %s: %s\n", color.YellowString(record.Hash.String()[:7]), referenceString, i, record.recType, record.message)
+			fmt.Printf("%s (%s) HEAD@{%d}: %s: %s\n", color.YellowString(hashString[:7]), referenceString, i, record.recType, record.message)
 		}
 	}
 }
